@@ -663,6 +663,72 @@ static void run_case(uint64_t idx, Ctx& cx) {
     }
 }
 
+// ------------------------------------------------------------------------------------------------ space witness
+// One minimal witness per open library defect, executed strictly (no KNOWN_DEFECTS guard).  A witness that still fails is reported as a violation of kind
+// "defect:<id>" (matched by /verif/known_findings.json); a witness that passes (defect repaired) reports nothing.
+static const char* WITNESS_ID[] = {"schema-doctype-ignores-disable-default-entity-resolution", "sax-resolver-unresolved-systemid", "pe-expansion-not-counted",
+                                   "schema-document-expansions-not-limited"};
+static bool fatal_with(const ParseResult& r, const char* sub) { for (auto& e : r.errors) if (e[0] == 'F' && e.find(sub) != std::string::npos) return true; return false; }
+static void run_witness(uint64_t idx, Ctx& cx) {
+    const char* LIMIT_MSG = "entity expansions in the document";
+    std::string kind = std::string("defect:") + WITNESS_ID[idx];
+    auto report = [&](const std::string& doc, const std::string& files, const std::string& config, const std::string& expected, const std::string& observed) {
+        cx.violation(kind, "\"doc\":" + jstr(doc) + ",\"files\":" + jstr(files) + ",\"config\":" + jstr(config) + ",\"expected\":" + jstr(expected) + ",\"observed\":" + jstr(observed));
+        if (cx.verbose) printf("witness %s\n doc      %s\n files    %s\n config   %s\n expected %s\n observed %s\n", WITNESS_ID[idx], doc.c_str(), files.c_str(), config.c_str(), expected.c_str(), observed.c_str());
+    };
+    cx.count("witnesses_run");
+    if (idx == 0 || idx == 1) {
+        ACfg c;
+        c.disableDefRes = (idx == 0); c.loadExtDTD = true; c.loadSchema = true; c.doSchema = (idx == 0); c.stdUri = false; c.urlBase = false; c.val = 0; c.scanner = IG;
+        c.res = idx == 0 ? 8 /* xml-source@SAX2 */ : 5 /* sax-null@SAX2 */;
+        std::vector<int> word = {(idx == 0 ? K_SCHEMA_DOCTYPE : K_GE_USED) * NIDKIND + (idx == 0 ? I_SAMEDIR : I_NESTED)};
+        Built b = build(word, c.urlBase);
+        g_vfs->clear();
+        std::string files;
+        for (auto& f : b.files) { g_vfs->put(f.first, f.second); if (std::find(b.decoys.begin(), b.decoys.end(), f.first) == b.decoys.end()) files += f.first + " = " + f.second + "\n"; }
+        AResolver res;
+        if (RES[c.res].mode == 1) for (auto& r : b.refs) if (r.depth == 0) res.supplies[r.raw] = Supply{b.files[r.target], r.abs};
+        do_parse(c, b, res);
+        std::string log = join_log(g_vfs->log);
+        if (idx == 0) {
+            // the resolver supplies m1.xsd (which carries <!DOCTYPE xs:schema SYSTEM "a1.dtd">) and declines a1.dtd; nothing may be opened by the default mechanism
+            bool opened = false;
+            for (auto& ev : g_vfs->log) if (ev.compare(0, 5, "open ") == 0 || ev.compare(0, 4, "net ") == 0 || ev.compare(0, 5, "miss ") == 0) opened = true;
+            if (opened) report(b.doc, files, c.str(), "disableDefaultEntityResolution is set: no file/net access by the default mechanism (log without open/net entries)", log);
+            else cx.count("witness_passes");
+        } else {
+            // <!ENTITY g1 SYSTEM "n1.ent"> is declared inside /v/sub/k1.ent: the SAX EntityResolver must be offered the resolved identifier /v/sub/n1.ent
+            std::string got = "(no offer for n1.ent)";
+            bool ok = false;
+            for (auto& ev : g_vfs->log)
+                if (ev.compare(0, 10, "offer sax|") == 0 && ev.find("n1.ent") != std::string::npos) { got = ev; ok = (ev == "offer sax||/v/sub/n1.ent|" || ev == "offer sax||file:///v/sub/n1.ent|"); }
+            if (!ok) report(b.doc, files, c.str(), "offer sax||/v/sub/n1.ent|  (system identifier resolved against the base URI /v/sub/k1.ent of the entity that contains the declaration)", got + "  -- full log: " + log);
+            else cx.count("witness_passes");
+        }
+        return;
+    }
+    // expansion-limit witnesses: reference count 3 (e0 -> e1, e1), SecurityManager limit 1  =>  fatal "expansion limit" error expected
+    Config c; c.api = SAX2; c.scanner = IG; c.secLimit = 1;
+    ParseIO io;
+    std::string files;
+    g_vfs->clear();
+    if (idx == 2) io.bytes = "<!DOCTYPE r [<!ENTITY % p0 \"&#37;p1;&#37;p1;<!--c0-->\"><!ENTITY % p1 \"<!--c1-->\">%p0;]><r/>";
+    else {
+        c.ns = true; c.schema = true; c.val = 1;
+        std::string xsd = "<!DOCTYPE xs:schema [<!ENTITY e0 \"t&e1;&e1;\"><!ENTITY e1 \"t\">]><xs:schema xmlns:xs=\"http://www.w3.org/2001/XMLSchema\"><xs:annotation><xs:documentation>&e0;</xs:documentation>"
+                          "</xs:annotation><xs:element name=\"r\" type=\"xs:string\"/></xs:schema>";
+        g_vfs->put("/v/s.xsd", xsd);
+        files = "/v/s.xsd = " + xsd;
+        io.bytes = "<r xmlns:xsi=\"http://www.w3.org/2001/XMLSchema-instance\" xsi:noNamespaceSchemaLocation=\"s.xsd\">x</r>";
+    }
+    ParseResult r = parse_xerces(c, io);
+    if (!fatal_with(r, LIMIT_MSG))
+        report(io.bytes, files, std::string("SAX2 IGXMLScanner ") + (idx == 3 ? "namespaces+schema+validation on, " : "") + "SecurityManager entity expansion limit 1",
+               std::string("fatal error \"parser has encountered more than '1' entity expansions\": processing expands 3 ") + (idx == 2 ? "parameter-entity references" : "entity references while reading the schema document"),
+               "fatal errors: " + std::to_string(r.fatals) + (r.errors.empty() ? ", no error reported, document accepted" : ", reported: " + join(r.errors)));
+    else cx.count("witness_passes");
+}
+
 int main(int argc, char** argv) {
     Args a(argc, argv);
     xml_init();
@@ -686,6 +752,11 @@ int main(int argc, char** argv) {
     g_nwords = words_upto(g_tokset.size(), g_k);
     Runner R;
     R.name = a.str("space", "access");
+    if (R.name == "witness") {
+        R.total = 4; R.fn = run_witness;
+        R.describe = [](uint64_t i) { return "{\"witness\":" + jstr(WITNESS_ID[i]) + "}"; };
+        return R.main_tail(a);
+    }
     R.total = g_nwords * ncfg();
     R.fn = run_case;
     R.describe = [](uint64_t i) { uint64_t nc = ncfg(); return "{\"word\":" + jstr(word_str(word_of(i / nc))) + ",\"config\":" + jstr(cfg_at(i % nc).str()) + "}"; };
